@@ -161,10 +161,12 @@ static bool cmp_forest(const Forest &e, const Forest &g, const std::set<int> &fr
 }
 
 // ------------------------------------------------------------------ the system under exploration
-enum K { CREATE, AFTER, BEFORE, GADD, NADD, GINS, NINS, UNLINK, MOVE, NCLONE, LCLONE, TCLONE, CLEAR, DESTROY, SWAP, SWITCH, RELINK, RESTORE, NK };
+enum K { CREATE, AFTER, BEFORE, GADD, NADD, GINS, NINS, UNLINK, MOVE, NCLONE, LCLONE, TCLONE, CLEAR, DESTROY, SWAP, SWITCH, RELINK, RESTORE, DTOR, SETMETA, ASSIGN, SCOPE, NK };
+static bool g_cxx = false;   // pool nodes are C++ mpt::node objects (node::create) and the C++ members are part of the alphabet
 static const char *kname[] = { "mpt_node_new", "mpt_gnode_after", "mpt_gnode_before", "mpt_gnode_add", "mpt_node_add", "mpt_gnode_insert", "mpt_node_insert",
 	"mpt_node_unlink", "mpt_node_move", "mpt_node_clone", "mpt_list_clone", "mpt_tree_clone", "mpt_node_clear", "mpt_node_destroy",
-	"mpt_gnode_swap", "mpt_gnode_switch", "mpt_gnode_relink", "mpt_gnode_relink(restore)" };
+	"mpt_gnode_swap", "mpt_gnode_switch", "mpt_gnode_relink", "mpt_gnode_relink(restore)",
+	"mpt::node::~node", "mpt::node::set_metatype", "mpt::node::operator=", "mpt::node scope end" };
 static const int POS[] = { 0, 1, 2, 3, -1, -2 };
 struct OpD { int k, a, b, pos; };
 static std::vector<OpD> g_ops;
@@ -173,6 +175,7 @@ static void build_ops()
 	g_ops.clear();
 	for (int a = 0; a < g_N; ++a) {
 		for (int k : { CREATE, UNLINK, NCLONE, LCLONE, TCLONE, CLEAR, DESTROY, RELINK, RESTORE }) g_ops.push_back(OpD{k, a, -1, 0});
+		if (g_cxx) { for (int k : { DTOR, SETMETA, ASSIGN }) g_ops.push_back(OpD{k, a, -1, 0}); g_ops.push_back(OpD{SCOPE, a, -1, 0}); g_ops.push_back(OpD{SCOPE, a, -1, 1}); }
 		for (int b = 0; b < g_N; ++b) {
 			for (int k : { AFTER, BEFORE, SWAP, SWITCH }) g_ops.push_back(OpD{k, a, b, 0});
 			if (a == b) continue;
@@ -190,6 +193,8 @@ static std::string op_str(const OpD &d)
 	case MOVE: return fmt("mpt_node_move(&%s headed by %s, dst=%s)", d.pos ? "local copy of parent->children" : "list", nn(d.a).c_str(), nn(d.b).c_str());
 	case AFTER: case BEFORE: return fmt("%s(position=%s, insert=%s)", kname[d.k], nn(d.a).c_str(), nn(d.b).c_str());
 	case SWAP: case SWITCH: return fmt("%s(%s, %s)", kname[d.k], nn(d.a).c_str(), nn(d.b).c_str());
+	case DTOR: return fmt("%s->~node(); free()", nn(d.a).c_str());
+	case SCOPE: return fmt("%s made the child of a %s mpt::node which is then destroyed", nn(d.a).c_str(), d.pos ? "new'ed" : "stack");
 	default: return fmt("%s(%s)", kname[d.k], nn(d.a).c_str());
 	}
 }
@@ -258,10 +263,15 @@ struct HSys {
 	void make(int i)
 	{
 		static const char *txt[] = { "a", "b" };
-		p[i] = LIB(mpt::mpt_node_new(g_name[i] < 2 ? 2 : 0));
-		if (g_name[i] < 2) mpt::mpt_identifier_set(&p[i]->ident, txt[g_name[i]], 1);
 		meta[i] = CountMeta::make(100 + i, false);
-		p[i]->_meta = meta[i];
+		if (g_cxx) {
+			p[i] = g_name[i] < 2 ? LIB(mpt::node::create(txt[g_name[i]], -1)) : LIB(mpt::node::create((size_t) 0));
+			p[i]->set_metatype(meta[i]);
+		} else {
+			p[i] = LIB(mpt::mpt_node_new(g_name[i] < 2 ? 2 : 0));
+			if (g_name[i] < 2) mpt::mpt_identifier_set(&p[i]->ident, txt[g_name[i]], 1);
+			p[i]->_meta = meta[i];
+		}
 		cur.alive[i] = true; cur.par[i] = -1; cur.kids[i].clear();
 	}
 	void raw_children(int parent, const std::vector<int> &l)
@@ -503,6 +513,8 @@ struct HSys {
 				break; }
 			case SWAP: case SWITCH: if (a != b && (F.anc(a, b) || F.anc(b, a))) return false; break;
 			case RESTORE: if (F.kids[a].empty()) return false; break;
+			case DTOR: case SETMETA: case ASSIGN: if (!g_cxx) return false; break;
+			case SCOPE: if (!g_cxx || !F.single(a)) return false; break;
 			}
 		}
 		// ---------------- expectation
@@ -675,6 +687,30 @@ struct HSys {
 				if (dep > 1) cnt("relink:restore below depth 1");
 			}
 			sig = guarded([&] { LIB((mpt::mpt_gnode_relink(pa), 0)); });
+			break; }
+		case DTOR: {
+			// a C++ node may be destroyed at any position: it has to take itself out of its list and release its subtree
+			const std::vector<int> &l = F.list_of(a); int i = F.index_of(a), n = (int) l.size();
+			sig_cls = std::string(F.par[a] >= 0 ? "child" : "root") + (n == 1 ? ",only" : (i == 0 ? ",first" : (i + 1 == n ? ",last" : ",middle"))) + (F.kids[a].empty() ? ",leaf" : ",with-children");
+			cnt("dtor:" + sig_cls);
+			F.subtree(a, deaths); E.detach(a);
+			sig = guarded([&] { LIB((pa->~node(), 0)); free(pa); });
+			break; }
+		case SETMETA: case ASSIGN: {
+			sig_cls = "replace-value";
+			CountMeta *nm = CountMeta::make(200 + a, false);
+			if (d.k == SETMETA) sig = guarded([&] { LIB((pa->set_metatype(nm), 0)); });
+			else sig = guarded([&] { mpt::reference<mpt::metatype> ref(nm); LIB((*pa = ref, 0)); });
+			meta[a] = nm;   // the old value must have been released exactly once (counted below)
+			break; }
+		case SCOPE: {
+			sig_cls = std::string(d.pos ? "new/delete" : "stack") + (F.kids[a].empty() ? ",leaf" : ",with-children");
+			F.subtree(a, deaths); E.detach(a);
+			CountMeta *tm = CountMeta::make(300 + a, false);
+			sig = guarded([&] {
+				if (d.pos) { mpt::node *t = new mpt::node(tm); LIB(mpt::mpt_gnode_insert(t, 0, pa)); LIB((delete t, 0)); }
+				else { mpt::node t(tm); LIB(mpt::mpt_gnode_insert(&t, 0, pa)); }
+			});
 			break; }
 		}
 		cnt(std::string("op:") + kname[d.k]);
@@ -887,6 +923,9 @@ void mc_jobs(Tier t, std::vector<std::string> &jobs)
 	for (auto &s : m3) jobs.push_back("hist:" + s + ":0,1,2,3:" + (t == Quick ? "6" : "8"));
 	for (auto &s : m4) jobs.push_back("hist:" + s + ":0,1,2,3,4,5,6:" + (t == Quick ? "4" : "7"));
 	for (auto &s : m4) jobs.push_back("snap:" + s + ":0/1");
+	// cxx: same snapshot exploration with pool nodes that are C++ mpt::node objects; adds ~node() at every position, set_metatype, operator=, scope end
+	for (auto &s : m4) jobs.push_back("cxx:" + s + ":0/1");
+	if (t == Thorough) for (const char *s : { "aab--", "aabb-", "ab---" }) for (int k = 0; k < 8; ++k) jobs.push_back(fmt("cxx:%s:%d/8", s, k));
 	if (t == Quick) for (int k = 0; k < 16; ++k) jobs.push_back(fmt("snap:aab--:%d/16", k));
 	else for (auto &s : m5) for (int k = 0; k < 8; ++k) jobs.push_back(fmt("snap:%s:%d/8", s.c_str(), k));
 	for (int k = 0; k < 16; ++k) jobs.push_back(fmt("parse:%d/16", k));
@@ -899,7 +938,9 @@ static int setup(const std::string &job, std::vector<uint64_t> &inits)
 	g_N = (int) names.size();
 	for (int i = 0; i < g_N; ++i) g_name[i] = names[i] == 'a' ? 0 : (names[i] == 'b' ? 1 : 2);
 	build_ops();
-	if (job.compare(0, 5, "snap:") == 0) {
+	g_cxx = job.compare(0, 4, "cxx:") == 0;
+	build_ops();
+	if (job.compare(0, 5, "snap:") == 0 || g_cxx) {
 		build_table();
 		size_t k = atoi(in.c_str()), n = atoi(in.c_str() + in.find('/') + 1);
 		for (size_t i = k; i < g_table.size(); i += n) inits.push_back(SNAP + i);
@@ -914,6 +955,7 @@ static const char *required[] = {
 	"tree_clone:depth>=2 below the cloned level", "list_clone:depth>=2 below the cloned level", "tree_clone:with children", "list_clone:with children",
 	"move:leading-elements-moved", "move:children-reparented", "move:children-merged", "move:later-element-moved", "move:nothing-to-move",
 	"move:root list, local head", "move:child list, separate local head", "move:child list, &parent->children", "move:child list, separate local head, first element moved",
+	"dtor:root,first,leaf", "dtor:root,first,with-children", "dtor:root,middle,leaf", "dtor:root,last,leaf", "dtor:root,only,with-children", "dtor:child,first,leaf", "dtor:child,middle,leaf", "dtor:child,last,with-children", "dtor:child,only,leaf",
 	"relink:restore below depth 1", "observer:traversals(4 orders x 3 filters per root list)",
 	"parse:into empty root", "parse:merge into populated root" };
 void mc_explore(Run &r, const std::string &job)
